@@ -1263,7 +1263,8 @@ Theorem parse_expr_grammar a : ok_a xpath a = true -> pat = show_a a ->
     /\ idx st' = len /\ hasbr st' = false /\ good top
     /\ (forall p q, p <= n -> (In q (R top p) <-> In q (Da input ci multi a p)))
     /\ framed top
-    /\ (forall p, p <= n -> R top p = DaO input ci multi a p).
+    /\ (forall p, p <= n -> R top p = DaO input ci multi a p)
+    /\ 1 <= parens st'.
 Proof.
   intros Hok Hpat. destruct model_parses as [_ PA].
   assert (Hl : len = length (show_a a)) by (unfold len; rewrite Hpat; reflexivity).
@@ -1280,10 +1281,11 @@ Proof.
     assert (Ga : good (alt_op bs)) by (apply alt_op_good; auto).
     split; [apply good_make_sequence; [exact Ga|exact I]|].
     split.
-    2:{ split.
+    2:{ split; [|split].
         - destruct (FrA ltac:(cbn; lia) (Forall_nil _)) as [Fbs _]. apply framed_make_sequence; [apply alt_op_framed; auto|exact I].
         - intros p Hp. rewrite (R_make_sequence_eq (alt_op bs) OEnd p Ga I).
-          change (R OEnd) with (fun q : nat => [q]). rewrite fm_single, (alt_op_eq bs p Nbs), (EqA p Hp). reflexivity. }
+          change (R OEnd) with (fun q : nat => [q]). rewrite fm_single, (alt_op_eq bs p Nbs), (EqA p Hp). reflexivity.
+        - destruct (FrA ltac:(cbn; lia) (Forall_nil _)) as [_ Hps]. cbn [parens st_init] in Hps. exact Hps. }
     intros p q Hp. rewrite (R_make_sequence (alt_op bs) OEnd p q Ga I).
     split.
     + intros (m & Hm & [<-|[]]). apply (alt_op_sem bs p m Nbs) in Hm. apply (Sem p m Hp) in Hm.
